@@ -123,8 +123,10 @@ pub fn run_b(ctx: &mut Ctx) -> RunResult {
 }
 
 pub fn run(ctx: &mut Ctx) -> RunResult {
-    match ctx.ch.weighted("cfg.world", &[4, 1]) {
+    match ctx.ch.weighted("cfg.world", &[3, 1, 3, 3]) {
         0 => run_b(ctx),
-        _ => crate::worlds::c::run_c03_handshake(ctx),
+        1 => crate::worlds::c::run_c03_handshake(ctx),
+        2 => crate::worlds::e::run_hostile(ctx),
+        _ => crate::worlds::f::run_hostile(ctx),
     }
 }
